@@ -135,7 +135,7 @@ Print Assumptions C11_repr_bytes_reads_back.
    one line when the variable has a subfield serializer, _multi_line_pformat
    otherwise): every physical line shown is newline-free, non-blank once
    stripped, does not end in a backslash, does not start with an opening
-   bracket or a hash (lines_ok'); the stripped concatenation of the lines is not
+   bracket, a hash, a dollar or a bar (lines_ok'); the stripped concatenation of the lines is not
    taken for a replacement token, a vector or a UUID (unsniffed); and the
    literal reader returns the value. *)
 Theorem C11_literal_value_roundtrip :
